@@ -57,6 +57,8 @@ def gen_history(rng):
     n = rng.randrange(2, 7)
     hist = []
     compiles = 0
+    if rng.random() < .3:
+        hist.append('pformat')               # the dictionary read back from its Python source, then compiled
     while compiles < n and len(hist) < 9:
         p = rng.random()
         if p < .15:
@@ -99,6 +101,11 @@ def spec_case(ctx, so=None):
     spec, g = G.gen_spec(rng, so)
     vg = G.value_gen(rng, spec)
     mods = G.arrange(rng, spec, reorganise=True, kinds=('split', 'permute'))
+    if spec.tags != 'AUTOMATIC' and len(mods) > 1 and rng.random() < .6:
+        # modules with different tagging defaults (C13 compares a text with itself, so the meaning of the
+        # abstract specification does not have to be preserved)
+        for m in mods:
+            m['tags'] = rng.choice(['IMPLICIT', 'EXPLICIT'])
     text = G.render_text(mods)
     return spec, vg, text
 
@@ -151,6 +158,44 @@ def check_plain(ctx, d, text, when):
     return True
 
 
+def shared_subobjects(d):
+    """Mutable objects (dict / list / bytearray) reachable from two different top-level descriptors of
+    the specification dictionary: [(root1, root2, type name of the object)]."""
+    seen = {}
+    out = []
+
+    def walk(x, root):
+        if isinstance(x, (dict, list, bytearray)):
+            r = seen.get(id(x))
+            if r is not None:
+                if r != root:
+                    out.append((r, root, type(x).__name__))
+                return
+            seen[id(x)] = root
+            for y in (x.values() if isinstance(x, dict) else x if isinstance(x, list) else ()):
+                walk(y, root)
+        elif isinstance(x, tuple):
+            for y in x:
+                walk(y, root)
+    for mn, m in d.items():
+        for section in ('types', 'values'):
+            for n, td in m.get(section, {}).items():
+                walk(td, (mn, section, n))
+    return out
+
+
+def check_no_aliasing(ctx, d, text, hist, baseline):
+    """After pre_process no mutable sub-object may be shared between two different descriptors unless
+    the parser's output already shared it: a pass that fills in one of them would fill in the other."""
+    sh = shared_subobjects(d)
+    if len(sh) > baseline:
+        ctx.violation('after compile_dict a mutable %s is shared between the descriptors %s and %s of the '
+                      'specification dictionary' % (sh[0][2], '.'.join(sh[0][0]), '.'.join(sh[0][1])),
+                      dict(kind='history', spec=text, history=hist, aliasing=[list(map(list, x[:2])) for x in sh[:3]]))
+        return False
+    return True
+
+
 def check_process_pure(ctx, pristine, text, numeric):
     """process() after pre_process() must not write to the dictionary."""
     for cname, mod in COMPILER_MODULES.items():
@@ -174,6 +219,8 @@ def run_history_impl(ctx, text, d0, hist, names, vals, eff, rt_of, probe=True):
     compile step."""
     d = copy.deepcopy(d0)
     pristine = copy.deepcopy(d0)
+    base_sharing = len(shared_subobjects(d))
+    aliasing_ok = True
     states = []
     for si, step in enumerate(hist):
         if step == 'pformat':
@@ -187,6 +234,9 @@ def run_history_impl(ctx, text, d0, hist, names, vals, eff, rt_of, probe=True):
             continue
         codec, ne = step
         r = lib.attempt(asn1tools.compile_dict, d, codec, None, ne)
+        if aliasing_ok:
+            ctx.evaluations += 1
+            aliasing_ok = check_no_aliasing(ctx, d, text, hist[:si + 1], base_sharing)
         try:
             states.append(X.ex_dict(d))
         except X.Unsupported as e:
@@ -382,6 +432,48 @@ def index_of_compile(hist, i):
     return len(hist) - 1
 
 
+def mixed_default_compof_cases(ctx, n):
+    """COMPONENTS OF a type of another module that has a DIFFERENT tagging default, members with a tag
+    number but no IMPLICIT / EXPLICIT, modules in random (often non-alphabetical) order in the text, the
+    history often starting with eval(pformat(d)) (which sorts the modules), BER / DER first."""
+    rng = ctx.rng
+    for _ in range(n):
+        g = gen_asn1.Gen(rng, gen_asn1.Opts(max_depth=1, recursion=False, kinds=set(gen_asn1.DEFAULT_KINDS) - {'REF', 'SET'},
+                                            defaults=False, named_bits=False, named_numbers=False, value_refs=False))
+        g.pending = {}
+
+        def member(name, tagno):
+            t = g.gen_type(1, allow_ref=False)
+            opt = 'optional' if rng.random() < .3 else None
+            return {'name': name, 't': t, 'opt': opt,
+                    'tag': ('', tagno, rng.choice(['', '', '', 'IMPLICIT', 'EXPLICIT']))}
+        inner = {'k': 'SEQUENCE', 'root': [member('i%d' % i, 10 + i) for i in range(rng.randrange(1, 4))], 'ext': None}
+        own = [member('o%d' % i, i) for i in range(rng.randrange(0, 3))]
+        outer_root = own + [{'compof': 'Inner'}]
+        rng.shuffle(outer_root)
+        outer = {'k': 'SEQUENCE', 'root': outer_root, 'ext': None}
+        spec = G.Spec('IMPLICIT', False, [('Inner', inner), ('Outer', outer)], [])
+        names2 = rng.sample(['Ka', 'Kb', 'Zy', 'Zx', 'Mm'], 2)
+        da, db = rng.choice([('IMPLICIT', 'EXPLICIT'), ('EXPLICIT', 'IMPLICIT'), ('EXPLICIT', 'AUTOMATIC'),
+                             ('IMPLICIT', 'AUTOMATIC')])
+        mods = [{'name': names2[0], 'tags': da, 'ext_implied': False, 'types': [('Inner', inner)], 'values': []},
+                {'name': names2[1], 'tags': db, 'ext_implied': False, 'types': [('Outer', outer)], 'values': []}]
+        rng.shuffle(mods)
+        text = G.render_text(mods)
+        vg = G.value_gen(rng, spec)
+        names, vals, eff, rt_of = prepare(vg, spec, 2, rng)
+        hist = (['pformat'] if rng.random() < .7 else []) + [[rng.choice(['ber', 'der']), False],
+                                                             [rng.choice(G.CODECS), rng.random() < .3]]
+        r = lib.attempt(asn1tools.parse_string, text)
+        if r[0] != 'ok':
+            ctx.violation('generated specification does not parse: %s' % (r[1:],), dict(kind='parse', spec=text))
+            continue
+        ctx.case(('mixed', da, db, mods[0]['name'] < mods[1]['name'], hist[0] == 'pformat'),
+                 dict(kind='history', spec=text, history=hist))
+        ctx.count('mixed-default-compof')
+        run_history_impl(ctx, text, r[1], hist, names, vals, eff, rt_of)
+
+
 def run_witness(ctx, w):
     """Replay of the Coq refutation witness (and of replay files): a fixed history."""
     d = asn1tools.parse_string(w['spec'])
@@ -456,6 +548,7 @@ def run(ctx):
     if w is not None:
         ctx.violation('numeric_enums=True leaks into a later compile of the same dictionary: %r' % (w,),
                       dict(kind='witness', **WITNESS))
+    mixed_default_compof_cases(ctx, 10 if ctx.quick else 150)
     total = 70 if ctx.quick else 2000
     done = 0
     while done < total:
